@@ -194,7 +194,7 @@ func sizeContract(r *Result, dp *DriverPool, rng *rand.Rand, n int) {
 				ws = append(ws, "-")
 			}
 			runW1Model(r, dp, w1Case{Op: "writer1-history", Cfg: c, Writes: ws})
-		runW1Auto(r, dp, w1Case{Op: "writer1-history", Cfg: c, Writes: ws})
+			runW1Auto(r, dp, w1Case{Op: "writer1-history", Cfg: c, Writes: ws})
 		}
 		if !c.SizeInHeader && size == 0 {
 			continue // no explicit size configured
